@@ -27,6 +27,16 @@
 (* and exports, for every case, Eval, PlanEval(CodeFlags) and the smallest *)
 (* set of deviation rules that explains a difference.  A difference is a   *)
 (* CANDIDATE; the verdict comes from running the real planner (binding).   *)
+(*                                                                         *)
+(* Part 3 (EVALUATOR): RunEval(q, db, cx, part, F): how the statement(s)   *)
+(* of the plan are executed (reader/traceql/transpiler:                    *)
+(* complexity_evaluator.go, simple_request_processor.go,                   *)
+(* complex_request_processor.go).  A complexity query decides between ONE  *)
+(* execution of the plan and Portions(cx) executions OF THE SAME PLAN, the *)
+(* i-th over the traces with cityHash64(trace_id) % n = i plus the traces  *)
+(* answered by the previous portion; the answer of the last portion is the *)
+(* answer of the request.  TLC checks that the merged answer is what the   *)
+(* definition accepts, for every split of the traces over the portions.    *)
 (***************************************************************************)
 EXTENDS Integers, Sequences, FiniteSets, TLC
 
@@ -176,7 +186,7 @@ DefChain(q, db) ==
 (* inside the window.  Ties may be resolved either way.                    *)
 (***************************************************************************)
 K1(db, ms) == [ti \in Traces(db) |-> IF ms[ti] = {} THEN -1 ELSE MaxOf({db[ti][si].ts : si \in ms[ti]})]
-K2(db) == [ti \in Traces(db) |-> MinOf({db[ti][si].ts : si \in Spans(db, ti)})]
+K2(db) == [ti \in Traces(db) |-> IF Spans(db, ti) = {} THEN -1 ELSE MinOf({db[ti][si].ts : si \in Spans(db, ti)})]
 K3(db, q) == [ti \in Traces(db) |->
                LET w == {db[ti][si].ts : si \in {x \in Spans(db, ti) : InWindow(db[ti][x], q)}}
                IN IF w = {} THEN -1 ELSE MinOf(w)]
@@ -209,7 +219,7 @@ Eval(q, db) ==
 (***************************************************************************)
 (* MECHANISM.                                                              *)
 (***************************************************************************)
-AllFlags == {"where", "emptywhere", "prec", "intersect", "chain3", "drop3", "tagsv2", "attrless_le", "distinct"}
+AllFlags == {"where", "emptywhere", "prec", "intersect", "chain3", "drop3", "tagsv2", "attrless_le", "distinct", "portion_from"}
 
 \* parser (model_v2.go): `Head AndOr Tail` is right recursive and has no operator priorities;
 \* expression_planner_simple.go analyzeCond walks the chain, joins the runs of &&-ed heads and
@@ -388,6 +398,65 @@ PlanEval(q, db, F) ==
                     IN {MechFinal(c.P, c.ms, c.key, q, db)}
 
 (***************************************************************************)
+(* EVALUATOR.                                                              *)
+(* complexity_evaluator.go Process: the complexity query (the plan of the  *)
+(* selectors' index scans with count() per bit set, planEval) answers      *)
+(* numbers; cx = the largest one.  cx < COMPLEXITY_THRESHOLD: the plan is  *)
+(* processed and executed once (simple_request_processor.go).  Otherwise   *)
+(* complex_request_processor.go Process: n = ceil(cx / threshold)          *)
+(* portions; for i = 0 .. n-1 THE SAME plan is processed again with        *)
+(* RandomFilter (n, i) and CachedTraceIds = the trace ids of the previous  *)
+(* portion's answer: every AttrConditionPlanner adds                       *)
+(*    and (cityHash64(trace_id) % n = i  or  trace_id in (cached))         *)
+(* to its index scan, so portion i sees the traces of its hash class and   *)
+(* the traces kept so far, and answers the `limit` most recent of them.    *)
+(* The answer of the last portion is the answer of the request.            *)
+(* `part` is the hash class of every trace (part[ti] \in 0 .. n-1): all    *)
+(* splits are enumerated, the binding picks trace ids that hash that way.  *)
+(* A selector without condition ({}) has no index scan to split and its    *)
+(* complexity is `limit`: always one execution.  Tags / values requests    *)
+(* above the threshold answer ALL tags (complex_tags_v2_processor.go),     *)
+(* which is a documented degradation and not modelled: cx = 0 there.       *)
+(***************************************************************************)
+Threshold == 10000000      \* COMPLEXITY_THRESHOLD
+\* 0 = one execution without random filter; n >= 1 = n executions with random filter (n, i)
+Portions(cx) == IF cx < Threshold THEN 0 ELSE (cx + Threshold - 1) \div Threshold
+Splittable(q) == q.kind = "search" /\ \A i \in DOMAIN q.sels : q.sels[i].sh # "empty"
+
+\* what portion i can see: only the index scans are filtered; tempo_traces is read by trace id,
+\* so a visible trace is seen with all its spans and a hidden one not at all
+Hide(db, V) == [ti \in DOMAIN db |-> IF ti \in V THEN db[ti] ELSE <<>>]
+RangeOf(p) == {p[j] : j \in DOMAIN p}
+
+\* ProcessComplexReqIteration: the window start of the next portion.
+\* As designed every portion evaluates the request's own window.
+\* [portion_from] (as written): when a portion answers exactly `limit` traces, the next one
+\* starts at the earliest start_time_unix_nano of the answered traces (min over ALL spans of a
+\* trace, tempo_traces is not bounded by the window): older spans of a trace that is only seen
+\* by a later portion are cut off, and a trace that began before the window moves the start
+\* BEFORE the request's window.
+NextFrom(q, db, F, p, from) ==
+  IF "portion_from" \in F /\ Len(p) = q.limit /\ Len(p) > 0
+  THEN MinOf({K2(db)[p[j]] : j \in DOMAIN p})
+  ELSE from
+
+RECURSIVE PortionStep(_, _, _, _, _, _, _, _)
+PortionStep(q, db, F, n, part, i, cached, from) ==
+  LET vis == {ti \in Traces(db) : part[ti] = i} \cup cached
+      O == PlanEval([q EXCEPT !.from = from], Hide(db, vis), F)
+  IN IF i = n - 1 THEN O
+     ELSE UNION {(IF o.err # NoErr THEN {o}       \* a failing portion fails the request
+                  ELSE UNION {PortionStep(q, db, F, n, part, i + 1, nx[1], nx[2]) :
+                                nx \in {<<RangeOf(p), NextFrom(q, db, F, p, from)>> : p \in o.seqs}})
+                 : o \in O}
+
+\* the set of answers of the request
+RunEval(q, db, cx, part, F) ==
+  LET n == IF Splittable(q) THEN Portions(cx) ELSE 0
+  IN IF n = 0 THEN PlanEval(q, db, F)
+     ELSE PortionStep(q, db, F, n, part, 0, {}, q.from)
+
+(***************************************************************************)
 (* COMPARISON, on what a client can observe: the sequence of traces in the *)
 (* answer and the spans reported for each of them.  An outcome o conforms  *)
 (* to the definition d iff it is not an error, every sequence it can       *)
@@ -417,6 +486,7 @@ Applicable(q) ==
      \cup (IF \E sel \in S : sel.sh # "empty" /\ WhereEmpty(sel, {"where"}) THEN {"emptywhere"} ELSE {})
      \cup (IF \E sel \in S : hasDur(sel) THEN {"where"} ELSE {})
      \cup (IF \E sel \in S : sel.sh = "empty" THEN {"attrless_le", "distinct"} ELSE {})
+ApplicableRun(q, cx) == Applicable(q) \cup (IF Splittable(q) /\ Portions(cx) > 1 THEN {"portion_from"} ELSE {})
 
 \* the smallest set of deviation rules that has to be switched off to make the plan conform
 \* (CF = the deviation rules the code is believed to have)
@@ -425,5 +495,9 @@ ExplainWith(q, db, d, CF) ==
   IN IF good = {} THEN {"UNEXPLAINED"}
      ELSE CHOOSE S \in good : \A S2 \in good : Cardinality(S) <= Cardinality(S2)
 Explain(q, db) == ExplainWith(q, db, Eval(q, db), AllFlags)
+ExplainRun(q, db, cx, part, d, CF) ==
+  LET good == {S \in SUBSET (ApplicableRun(q, cx) \cap CF) : ConformsAll(RunEval(q, db, cx, part, CF \ S), d, q, db)}
+  IN IF good = {} THEN {"UNEXPLAINED"}
+     ELSE CHOOSE S \in good : \A S2 \in good : Cardinality(S) <= Cardinality(S2)
 
 =============================================================================
